@@ -33,6 +33,8 @@ REG = "ant_service_management::NodeRegistry"
 
 
 def run(R):
+    from serdepair import serde_agreement
+    serde_agreement(R, "C19.registry.fields", ["ant_service_management::NodeRegistry"], 9)
     port_rules(R)
     R.whole_file_write("C19.registry.whole", "ant_service_management::NodeRegistry::save", "the registry saved after each step is replaced whole (loads back to the same state)")
     F = R.F
